@@ -53,6 +53,10 @@ CHECKS = {
    text="A real server is driven by a scripted unauthenticated sender built on a genuine ClientHello: every kind of second ClientHello (cookie absent, wrong, stale, truncated, extended, right cookie with one altered field) after a first one is enumerated for DTLS 1.2, 1.3 and dual-stack servers with several repetition/timing settings, and longer mixed sequences with gaps up to ten virtual minutes and changing source addresses are sampled. Everything the server emits is parsed by the independent wire monitor and compared with a reference predicate for 'valid echo'.",
    note="The sender is a byte-level script (no second protocol stack): cookies are spliced into the captured ClientHello (cookie field for 1.2, cookie extension for 1.3). The bytes-out/bytes-in ratio is not a verdict (the statement bounds the kind of message, not its size).",
    technique="deterministic simulation: enumerated and sampled scripted-peer sequences against a wire-level reference predicate"),
+ "C10": dict(level="exploration", design="§5 C10",
+   text="Interoperability with an independent implementation (refdtls: own PRF, key-block partition, GCM/CCM/ChaCha20/CBC record layouts, RFC 9146 additional data and MAC input, HKDF-Expand-Label with the dtls13 prefix, record nonce and sequence-number encryption, RFC 3610 CCM written from the RFC) on the records and secrets that simulated sessions actually produce, in both directions: the reference opens and recomputes everything the library emits, and the library must accept what the reference seals.",
+   note="The formulas are pure functions; this check covers their input space only as far as simulated sessions reach (suites x layouts x sizes x EMS x resumption), and says so. ECDHE premaster secrets are not visible, so master-secret derivation is recomputed only for plain-PSK suites; the DTLS 1.3 key schedule above the traffic secrets (early/handshake/master secret, exporter) is not recomputed.",
+   technique="deterministic simulation with an independent reference implementation as passive decoder and active record forger"),
 }
 
 NOT_YET = {}
